@@ -42,6 +42,8 @@ type CrashPlan struct {
 	ValChange bool // the application reports a power rise (x5) of validator Victim+1 at height 2 (in force from height 4);
 	// that validator's precommits of heights <= 3 do not reach the victim, so the seen commits the victim stores
 	// lack the signer whose power changes (restarts in the window where last and current validator sets differ)
+	ManyRounds bool // height 2 is decided in round 6 only (the proposals of rounds 1-5 are not forwarded): a long WAL for
+	// one height, with many timeouts to replay
 	Round2 bool // even heights need two rounds: the round-1 proposal and its parts are not forwarded (nil votes, timeouts
 	// and a second proposer in the WAL at the crash points)
 	Late bool // crash at the LAST instant with durable prefix p: just before unit p+1 is written (everything the
@@ -141,6 +143,9 @@ func CrashCase(c *core.Case, plan CrashPlan, p int) {
 	}
 	if plan.ValChange {
 		valChangeFilter(net, plan)
+	}
+	if plan.ManyRounds {
+		manyRoundsFilter(net)
 	}
 	startIdx := victim.Dur.Len()
 	if p < startIdx {
@@ -371,6 +376,10 @@ func CrashCase(c *core.Case, plan CrashPlan, p int) {
 				c.Violation(key("lost-block"), fmt.Sprintf("flush mode: head after restart is %d but block %d had been committed (state saved) before the crash", nn.BC.CurrentBlock().Height(), committedAtP), wit(""))
 			}
 			run.Max("blocks_dropped_after_restart", int64(committedAtP)-int64(nn.BC.CurrentBlock().Height()))
+			if os.Getenv("VERIF_C05_REAL_TICKER") != "" {
+				// demonstration aid: restart with the REAL timeout ticker instead of the simulator's model
+				n2.CS.VerifSetTicker(consensus.NewTimeoutTicker())
+			}
 			if err := n2.Start(); err != nil {
 				return "start: " + err.Error()
 			}
@@ -581,6 +590,9 @@ func GoldenLen(plan CrashPlan) (total int, start int, err error) {
 	if plan.ValChange {
 		valChangeFilter(net, plan)
 	}
+	if plan.ManyRounds {
+		manyRoundsFilter(net)
+	}
 	if plan.Rotate > 0 {
 		gv := net.Nodes[plan.Victim]
 		net.AfterStimulus = func(n *Node) {
@@ -671,6 +683,19 @@ func valChangeFilter(net *Net, plan CrashPlan) {
 		}
 		if vm, ok := m.(*consensus.VoteMessage); ok && vm.Vote.Type == kproto.PrecommitType && vm.Vote.Height <= 3 && vm.Vote.ValidatorAddress == a {
 			return false
+		}
+		return true
+	}
+}
+
+// manyRoundsFilter keeps the proposals and block parts of rounds 1-5 of height 2 from being forwarded.
+func manyRoundsFilter(net *Net) {
+	net.Filter = func(from, to *Node, m consensus.Message) bool {
+		switch x := m.(type) {
+		case *consensus.ProposalMessage:
+			return !(x.Proposal.Height == 2 && x.Proposal.Round <= 5)
+		case *consensus.BlockPartMessage:
+			return !(x.Height == 2 && x.Round <= 5)
 		}
 		return true
 	}
